@@ -9,64 +9,8 @@
 // Assumed: get_string_bits' contract (proved by Kani for all 64-byte blocks x 4 carry states), u64::count_ones ==
 // population count, the 64-lane vector contracts (T2, C17).
 
-pub open spec fn sc_step(st: (bool, bool), c: u8) -> (bool, bool) {
-    if st.1 { (st.0, false) } else if c == 0x5c { (st.0, true) } else if c == 0x22 { (!st.0, false) } else { (st.0, false) }
-}
-/// state after the bytes s[b .. b+k), starting from st0
-pub open spec fn sc_state(s: Seq<u8>, b: int, k: nat, st0: (bool, bool)) -> (bool, bool)
-    decreases k
-{
-    if k == 0 { st0 } else { sc_step(sc_state(s, b, (k - 1) as nat, st0), s[b + k - 1]) }
-}
-/// byte b+j is outside every string (the mask bit of get_string_bits is clear)
-pub open spec fn outside(s: Seq<u8>, b: int, j: nat) -> bool { !sc_state(s, b, j + 1, (false, false)).0 }
-/// occurrences of ch outside strings among s[b .. b+k)
-pub open spec fn cnt_out(s: Seq<u8>, b: int, k: nat, ch: u8) -> nat
-    decreases k
-{
-    if k == 0 { 0 } else { cnt_out(s, b, (k - 1) as nat, ch) + (if s[b + k - 1] == ch && outside(s, b, (k - 1) as nat) { 1nat } else { 0nat }) }
-}
-/// byte b+k is the closing bracket of the container whose content starts at b
-pub open spec fn closes(s: Seq<u8>, b: int, k: nat, l: u8, r: u8) -> bool {
-    s[b + k] == r && outside(s, b, k) && cnt_out(s, b, k, r) == cnt_out(s, b, k, l)
-}
-pub open spec fn no_close_before(s: Seq<u8>, b: int, k: nat, l: u8, r: u8) -> bool {
-    forall|j: nat| j < k ==> !closes(s, b, j, l, r)
-}
-
-pub proof fn lemma_sc_state_split(s: Seq<u8>, b: int, o: nat, i: nat, st0: (bool, bool))
-    ensures sc_state(s, b, o + i, st0) == sc_state(s, b + o, i, sc_state(s, b, o, st0)),
-    decreases i
-{
-    if i > 0 { lemma_sc_state_split(s, b, o, (i - 1) as nat, st0); }
-}
-pub proof fn lemma_sc_state_ext(s: Seq<u8>, b: int, t: Seq<u8>, c: int, k: nat, st0: (bool, bool))
-    requires forall|j: int| 0 <= j < k ==> #[trigger] s[b + j] == t[c + j],
-    ensures sc_state(s, b, k, st0) == sc_state(t, c, k, st0),
-    decreases k
-{
-    if k > 0 { lemma_sc_state_ext(s, b, t, c, (k - 1) as nat, st0); }
-}
-pub proof fn lemma_cnt_bound(s: Seq<u8>, b: int, k: nat, ch: u8)
-    ensures cnt_out(s, b, k, ch) <= k,
-    decreases k
-{
-    if k > 0 { lemma_cnt_bound(s, b, (k - 1) as nat, ch); }
-}
-/// while no right bracket closed the container, right brackets never outnumber left ones
-pub proof fn lemma_depth_nonneg(s: Seq<u8>, b: int, k: nat, l: u8, r: u8)
-    requires no_close_before(s, b, k, l, r), l != r,
-    ensures cnt_out(s, b, k, r) <= cnt_out(s, b, k, l),
-    decreases k
-{
-    if k > 0 {
-        let k1 = (k - 1) as nat;
-        assert(no_close_before(s, b, k1, l, r));
-        lemma_depth_nonneg(s, b, k1, l, r);
-        assert(!closes(s, b, k1, l, r));
-    }
-}
-
+//@include specs/scan.rs
+//@include specs/scan_grammar.rs
 // ---- population count
 pub open spec fn pc(x: u64, k: nat) -> nat
     decreases k
@@ -406,15 +350,8 @@ impl<'de, R: Reader<'de>> Parser<R> {
 //@sig
         requires old(self).pinv(), (left == 0x7b && right == 0x7d) || (left == 0x5b && right == 0x5d),
         ensures final(self).pinv(), final(self).same_doc(old(self)), final(self).same_cache(old(self)), final(self).read.idx() >= old(self).read.idx(),
-            ({
-                let s = old(self).read.data();
-                let b = old(self).read.idx() as int;
-                // stops just after the closing bracket of the scalar definition, or fails if the input has none
-                &&& (res.is_ok() ==> final(self).read.idx() > b
-                        && closes(s, b, (final(self).read.idx() - b - 1) as nat, left, right)
-                        && no_close_before(s, b, (final(self).read.idx() - b - 1) as nat, left, right))
-                &&& (res.is_err() ==> no_close_before(s, b, (s.len() - b) as nat, left, right))
-            }),
+            // stops just after the closing bracket of the scalar definition, or fails if the input has none
+            skip_container_post(old(self).read.data(), old(self).read.idx() as int, final(self).read.idx() as int, res.is_ok(), left, right),
 //@before /let mut prev_instring = 0;/
         let ghost s = self.read.data();
         let ghost b = self.read.idx() as int;
